@@ -171,6 +171,100 @@ def gen_random_scripts(rnd, n):
     return out
 
 
+SCHEMES = ("http https ftp ftps sftp ssh telnet telnets tel data datametrics file filenet news newsfeed nntp nntps mailto mail urn "
+           "about javascript java imap imaps imap3 pop2 pop3 pop3s smtp smtps ldap ldaps gopher irc ircs rtsp sip sips ws wss tftp nfs "
+           "git svn rsync dict finger whois snmp snmptrap ntp domain time daytime echo discard chargen x11 unix raw tcp udp icmp ip "
+           "kerberos klogin kshell login shell exec printer talk ntalk route uucp bootps bootpc tacacs auth sunrpc netbios bgp").split()
+
+
+def vocabulary():
+    """Protocol words from a large vocabulary: real scheme / service names, every proper prefix and a few extensions of each (so that
+    words extend and prefix each other), case variants, and every letter / digit alone and as the distinguishing last character."""
+    words = []
+    seen = set()
+
+    def add(w):
+        if w and w not in seen:
+            seen.add(w)
+            words.append(w)
+    for w in SCHEMES:
+        add(w)
+        for k in range(1, len(w)):
+            add(w[:k])
+        for suf in ("s", "x", "2", "net", "0"):
+            add(w + suf)
+        add(w.upper())
+        add(w.capitalize())
+        add(w[:-1] + w[-1].upper())
+    for c in "abcdefghijklmnopqrstuvwxyzABCDEFGHIJKLMNOPQRSTUVWXYZ0123456789":
+        add(c)
+        add("q" + c)
+        add(c + "q")
+    return words
+
+
+def gen_vocab_scripts(first_sid, limit=None, rnd=None):
+    """Every vocabulary word as the protocol of a URL without a port under the forced 'service found' outcome (and one other
+    outcome in rotation), and with an explicit port."""
+    words = vocabulary()
+    if limit and len(words) > limit:
+        words = rnd.sample(words, limit)
+    others = [["udp", 8080], ["ip", 0], ["no", 0], ["tcp", 65535]]
+    shapes = ["%s://joe@bbs.org/", "%s:h", "%s://h/p?q", "%s:/p"]
+    out = []
+    sid = first_sid
+    for i, w in enumerate(words):
+        for j, (lk, shape) in enumerate((( ["tcp", 1 + (i * 7) % 65000], shapes[i % 4]), (others[i % 4], shapes[(i + 1) % 4]),
+                                         (["tcp", 23], "%s://h:81/"))):
+            if j == 2 and i % 5:
+                continue
+            t = [ord(c) for c in shape % w]
+            steps = [("parse", [t, lk]), ("unparse", []), ("reparse", [lk]), ("b_del", []), ("del", [])]
+            out.append((sid, False, steps))
+            sid += 1
+    return out, len(words)
+
+
+def gen_byte_scripts(first_sid, stride=1):
+    """Every byte value 1..255 in every syntactic position class of a URL: first / inner / last character of each of the seven
+    components (first = right after each delimiter)."""
+    comps = [("ab", ":"), ("//", ""), ("u1", ":"), ("pw", "@"), ("h1", ":"), ("81", ""), ("/p1", "?"), ("q1", "")]
+    names = ["proto", "-", "user", "passwd", "host", "port", "path", "query"]
+    out = []
+    sid = first_sid
+    n = 0
+    for ci, (c, sep) in enumerate(comps):
+        if names[ci] == "-":
+            continue
+        for pos in ("first", "inner", "last"):
+            for b in range(1, 256):
+                n += 1
+                if n % stride:
+                    continue
+                body = c[1:] if names[ci] == "path" else c
+                lead = "/" if names[ci] == "path" else ""
+                if pos == "first":
+                    nb = [b] + [ord(x) for x in body]
+                elif pos == "inner":
+                    nb = [ord(body[0]), b] + [ord(x) for x in body[1:]]
+                else:
+                    nb = [ord(x) for x in body] + [b]
+                for variant in (0, 1):            # 0: full URL with port; 1: no port, so that the lookup is consulted
+                    if variant == 1 and names[ci] not in ("proto", "host", "user"):
+                        continue
+                    t = []
+                    for cj, (c2, sep2) in enumerate(comps):
+                        if variant == 1 and names[cj] == "port":
+                            t = t[:-1]            # drop the ':' in front of the port
+                            continue
+                        t += ([ord(x) for x in lead] + nb) if cj == ci else [ord(x) for x in c2]
+                        t += [ord(x) for x in sep2]
+                    lk = ["tcp", 8000 + b] if variant else ["udp", 9]
+                    out.append((sid, False, [("parse", [t, lk]), ("unparse", []), ("reparse", [lk]), ("b_del", []), ("del", [])]))
+                    sid += 1
+    return out
+
+
 def trace_validation(ctx, exe):
     """Direction (B) / robustness: random byte strings through spif_url_new_from_ptr & co under ASan, every recorded call
     validated by TLC evaluating the same actions."""
@@ -179,6 +273,14 @@ def trace_validation(ctx, exe):
     rnd = random.Random(ctx.seed)
     n = 1500 if ctx.tier == "quick" else 10000
     scripts = gen_random_scripts(rnd, n)
+    # value families (deterministic): a large protocol vocabulary, and every byte value in every position class
+    voc, nwords = gen_vocab_scripts(len(scripts) + 1)
+    scripts += voc
+    byt = gen_byte_scripts(len(scripts) + 1, stride=1 if ctx.tier != "quick" else 2)
+    scripts += byt
+    ctx.add("vocabulary_words", nwords)
+    ctx.add("vocabulary_scripts", len(voc))
+    ctx.add("byte_position_scripts", len(byt))
     texts = {}
     for sid, safety_only, steps in scripts:
         texts[sid] = "S %d\n%s\nE\n" % (sid, "\n".join("%s %s = ? ?" % (op, " ".join(tok(a) for a in args)) for op, args in steps))
@@ -218,13 +320,15 @@ def trace_validation(ctx, exe):
     # TLC validates in chunks so that a rejection costs one chunk, not the run
     chunk = 40000
     total = 0
-    for c0 in range(0, len(events), chunk):
-        # chunks must start at a reset
+    bounds = []
+    c0 = 0
+    while c0 < len(events):
         c1 = min(len(events), c0 + chunk)
-        while c1 < len(events) and events[c1]["op"] != "reset":
+        while c1 < len(events) and events[c1]["op"] != "reset":       # chunks start at a reset
             c1 += 1
-        if c0 and events[c0]["op"] != "reset":
-            continue
+        bounds.append((c0, c1))
+        c0 = c1
+    for c0, c1 in bounds:
         ev = events[c0:c1]
         ok, pos, path = trace.validate(ctx, "UrlObjTrace.tla", "UrlObjTrace.cfg", ev, tag="rnd%d" % c0, heap="6g")
         total += pos
